@@ -12,6 +12,7 @@ import sys
 pid, v, sid, caught = sys.argv[1:5]
 missed = sys.argv[5] if len(sys.argv) > 5 else ""
 w = f"/tmp/wt/{pid}"
+prop = pid[:3]
 dst = f"/verif/seeded/{sid}"
 os.makedirs(dst, exist_ok=True)
 shutil.copy(f"{w}/patch{v}.diff", f"{dst}/patch.diff")
@@ -26,8 +27,8 @@ m = re.search(r"demo_clean_exit=(\d+) demo_patched_exit=(\d+) suite_pass_missing
               confirm or "")
 meta = {
     "id": sid,
-    "breaks_property": pid,
-    "source": f"independent sub-agent given only the text of {pid} and a scratch worktree of /repo",
+    "breaks_property": prop,
+    "source": f"independent sub-agent given only the text of {prop} and a scratch worktree of /repo",
     "description_by_author": meta_txt,
     "confirmed_by_me": {
         "demo_exit_on_clean_checkout": int(m.group(1)) if m else None,
